@@ -178,6 +178,13 @@ func SolveAll(obs []*Ob, outDir string, timeoutS int) {
 					}
 				}
 			}
+			if r.status == "" && ob.Kind == "cover" && ob.Light != "" {
+				// vacuity check: the quantifier-free part answers quickly; sat there is good enough, unsat there is vacuity
+				lr := lightSolveAny(ob.Light, outDir, base+".light")
+				if lr.status == "sat" || lr.status == "unsat" {
+					r = lr
+				}
+			}
 			if r.status == "" && ob.Light != "" && ob.Light != ob.Query && ob.Kind != "cover" {
 				lr := lightSolve(ob.Light, outDir, base+".light")
 				if lr.status == "unsat" {
@@ -186,8 +193,8 @@ func SolveAll(obs []*Ob, outDir string, timeoutS int) {
 			}
 			if r.status == "" {
 				to := timeoutS
-				if ob.Kind == "cover" && to > 5 {
-					to = 5
+				if ob.Kind == "cover" && to > 2 {
+					to = 2
 				}
 				r = raceSolve(ob.Query, outDir, base, to)
 				if key != "" && (r.status == "unsat" || r.status == "sat") {
@@ -232,6 +239,24 @@ func lightSolve(query, dir, base string) solveResult {
 	r := solveResult{solver: "z3-5.1(light)", timeS: time.Since(t0).Seconds()}
 	if firstLine(string(out)) == "unsat" {
 		r.status = "unsat"
+	}
+	return r
+}
+
+func lightSolveAny(query, dir, base string) solveResult {
+	file := filepath.Join(dir, base+".smt2")
+	os.WriteFile(file, []byte(query), 0644)
+	defer os.Remove(file)
+	t0 := time.Now()
+	ctx, cancel := context.WithTimeout(context.Background(), 4*time.Second)
+	defer cancel()
+	out, _ := exec.CommandContext(ctx, "z3-new", "-T:2", file).CombinedOutput()
+	r := solveResult{solver: "z3-5.1(light)", timeS: time.Since(t0).Seconds()}
+	switch firstLine(string(out)) {
+	case "unsat":
+		r.status = "unsat"
+	case "sat":
+		r.status = "sat"
 	}
 	return r
 }
